@@ -9,6 +9,12 @@ loop: `done` is `alldata[:currentOffset]`, `rest` is `alldata[currentOffset:]`. 
 on an over-long prefix `_unprocessed` is set to the *whole* `alldata` (already delivered
 strings included); the loop never looks at `transport.disconnecting`.  Not modelled: the
 deprecated `recvd` attribute hack (applications that assign `self.recvd`).
+Re-entrancy: since the fix found by the C16 mutation audit `dataReceived` carries the `_busyReceiving`
+guard of `LineReceiver` — a call made from inside `stringReceived` (e.g. `resumeProducing()`,
+i.e. `dataReceived(b"")`, by a callback that paused and is resumed before it returns) only
+appends to the buffer and the running loop goes on with it.  A callback that pauses and is
+resumed synchronously therefore leaves exactly the state of one that does neither, and the
+correspondence sends the script flag `r` to this model as `n` (there is no nested call to model).
 Fuel: every iteration consumes at least `prefixLength ≥ 1` bytes; `feed` supplies
 `len(alldata) + 1`.
 -/
